@@ -61,3 +61,10 @@ package core
 //@   ensures[C20] nil_for_no_registry: (registry == nil || dyntype(registry, "*core.EmptyMetricRegistry")) ==> result == nil
 //@   ensures[C20] listeners: result != nil ==> result.RTTListener != nil && result.DropCounterListener != nil && result.InFlightListener != nil
 //@   assigns nothing
+
+//@ func NewUint64MetricSupplierWrapper
+//@   ensures[C20] wraps: isfunc(result, "core.NewUint64MetricSupplierWrapper$1") && *captured(result, "core.NewUint64MetricSupplierWrapper$1", 0) == s
+//@   assigns nothing
+//@ func NewIntMetricSupplierWrapper
+//@   ensures[C20] wraps: isfunc(result, "core.NewIntMetricSupplierWrapper$1") && *captured(result, "core.NewIntMetricSupplierWrapper$1", 0) == s
+//@   assigns nothing
